@@ -24,6 +24,8 @@ decided.  Decided are structural necessary conditions of it in src/dround.c:
  RF-reasm     seconds since midnight are split back with the constants they were packed with (60, 60, 24; 86400 on underflow);
               months since year 0 likewise (12, +-1); a quarter is 3 and a year 12 months
  RF-weekend   co-class business-day rounding moves a weekend day to Friday (backward) or Monday (forward) exactly
+ RF-fresh     a looked-up period length is used for the period it was looked up for: no write, on any path between the look-up
+              and the use, to a field the look-up read (a month length taken before the year moves on)
  RF-carry     dt_round adds the day carry of the time rounding to the date, resets it, and only then rounds the date
 """
 from core import (AnalysisBroken, strip, kids, const_of, call_args, expr_text, walk, CASTS, switch_cases)
@@ -80,6 +82,31 @@ def _field(e):
             x = _u(x["c"][0]) if x.get("c") else None
         names.reverse()
         return ".".join(names[-2:])
+    return None
+
+
+def _bool_param(fn):
+    """the --next flag: the one parameter of boolean type (its name is not relied upon)"""
+    out = []
+    for p_ in fn.params:
+        t = fn.tu.types[p_["t"]]
+        txt = (t.get("s") or "") + " " + " ".join(t.get("td") or [])
+        if "bool" in txt or "_Bool" in txt:
+            out.append(p_)
+    if len(out) != 1:
+        raise AnalysisBroken("%s: the boolean --next parameter was not found" % fn.name)
+    return out[0]["d"]
+
+
+def _var_from_call(fn, callee):
+    """local initialised or assigned from a call of `callee`"""
+    for x in fn.walk():
+        if x.get("k") == "Var" and kids(x) and _u(kids(x)[0]) is not None and _u(kids(x)[0]).get("callee") == callee:
+            return x["d"]
+        if x.get("k") == "BinaryOperator" and x.get("op") == "=" and _u(x["c"][1]) is not None and _u(x["c"][1]).get("callee") == callee:
+            l = _u(x["c"][0])
+            if l is not None and l.get("k") == "DeclRefExpr":
+                return l["d"]
     return None
 
 
@@ -207,10 +234,7 @@ def check_fourway(P, R, tu):
         if fn is None:
             raise AnalysisBroken("%s vanished" % name)
         R.saw(fn)
-        nextp = [p_ for p_ in fn.params if p_.get("n") == "nextp"]
-        if not nextp:
-            raise AnalysisBroken("%s has no nextp parameter" % name)
-        nextd = nextp[0]["d"]
+        nextd = _bool_param(fn)
         sites = _sites(fn)
         per_fn[name] = (fn, sites)
         for s in sites:
@@ -224,6 +248,8 @@ def check_fourway(P, R, tu):
             F1, T1, F2, T2 = expr_text(_u(c1["c"][0])), expr_text(_u(c1["c"][1])), expr_text(_u(c2["c"][0])), expr_text(_u(c2["c"][1]))
             s.F, s.T, s.Fnode, s.Tnode = F1, T1, _u(c1["c"][0]), _u(c1["c"][1])
             s.field = _field(c1["c"][0])
+            if s.Fnode.get("k") == "DeclRefExpr":
+                s.field = "wday" if s.Fnode.get("d") == _var_from_call(fn, "dt_get_wday") else "local " + str(s.Fnode.get("n"))
             site = "%s %s" % (name, s.field)
             s.site = site
             ok = True
@@ -547,14 +573,15 @@ def _show(s):
 # ------------------------------------------------------------------ RF-cocl
 def check_cocl(P, R, tu):
     rule = "RF-cocl"
-    for name, xname in (("tround_tdur_cocl", "tunp"), ("sxround_dur_cocl", "t")):
+    for name in ("tround_tdur_cocl", "sxround_dur_cocl"):
         fn = tu.func(name)
         if fn is None:
             raise AnalysisBroken("%s vanished" % name)
         R.saw(fn)
         cfg = fn.cfg
         # the remainder of the value by the divisor
-        diff = [v for v in fn.walk() if v.get("k") == "Var" and v.get("n") == "diff" and kids(v)]
+        diff = [v for v in fn.walk() if v.get("k") == "Var" and kids(v) and _u(kids(v)[0]) is not None and _u(kids(v)[0]).get("k") == "BinaryOperator"
+                and _u(kids(v)[0]).get("op") == "%" and const_of(_u(kids(v)[0])["c"][1]) is None]
         if len(diff) != 1:
             raise AnalysisBroken("%s: remainder variable of %s not found" % (rule, name))
         diff = diff[0]
@@ -562,10 +589,16 @@ def check_cocl(P, R, tu):
         if rem is None or rem.get("k") != "BinaryOperator" or rem.get("op") != "%":
             raise AnalysisBroken("%s: %s: the remainder is not a %% expression" % (rule, name))
         xv, dv = _u(rem["c"][0]), _u(rem["c"][1])
-        if xv.get("n") == xname and dv.get("k") == "DeclRefExpr":
+        # the value being rounded: the first parameter (epoch seconds) or the local packed from hours, minutes and seconds
+        if name == "sxround_dur_cocl":
+            xd = fn.params[0]["d"]
+        else:
+            xd = _packed_var(fn)
+        xname = expr_text(xv)
+        if xv.get("d") == xd and dv.get("k") == "DeclRefExpr":
             R.ob(rule, "%s: remainder of the value being rounded (%s) by the divisor (%s)" % (name, xname, dv.get("n")), True)
         else:
-            R.finding(rule, fn, "remainder", "the remainder must be that of `%s` by the divisor, it is `%s`" % (xname, expr_text(rem)), rem)
+            R.finding(rule, fn, "remainder", "the remainder must be that of the value being rounded by the divisor, it is `%s`" % expr_text(rem), rem)
             continue
         sd = dv["d"]
         # gates: zero divisor and non-dividing divisor, both dominating the remainder
@@ -617,7 +650,7 @@ def check_cocl(P, R, tu):
         if chain is None:
             raise AnalysisBroken("%s: %s: decision after the remainder not found" % (rule, name))
         parts = [_pred(p_) for p_ in _conj(chain["c"][0], "&&")]
-        nextd = [p_ for p_ in fn.params if p_.get("n") == "nextp"][0]["d"]
+        nextd = _bool_param(fn)
         if len(parts) == 2 and all(p_ is not None for p_ in parts) and {(p_[0], p_[1]) for p_ in parts} == {(diff["d"], False), (nextd, False)} \
                 and _leaves(chain["c"][1]) and not _writes_any(chain["c"][1]):
             R.ob(rule, "%s: a multiple stays untouched unless --next" % name, True)
@@ -631,8 +664,8 @@ def check_cocl(P, R, tu):
             R.finding(rule, fn, "moves", "the three moves (up, down from a multiple, down) are not all there", chain)
             continue
         P2, P3 = _pred(e2["c"][0]), _pred(e3["c"][0])
-        downd = [v for v in fn.walk() if v.get("k") == "Var" and v.get("n") == "downp"]
-        ok2 = P2 is not None and downd and P2[0] == downd[0]["d"] and P2[1] is False
+        downd = [v for v in fn.walk() if v.get("k") == "Var" and P2 is not None and v.get("d") == P2[0]]
+        ok2 = P2 is not None and downd and P2[1] is False
         ok3 = P3 is not None and P3[0] == diff["d"] and P3[1] is False
         xk = _key(fn, xv)
         moves = []
@@ -652,7 +685,7 @@ def check_cocl(P, R, tu):
             R.finding(rule, fn, "moves", "the moves must be: going up += divisor - remainder; going down from a multiple -= divisor; going down "
                       "-= remainder; found %s under `%s` / `%s`" % (moves, expr_text(_u(e2["c"][0])), expr_text(_u(e3["c"][0]))), e2)
         # direction flag
-        if downd and _forward_when_true(fn, downd[0]["d"], "downp") is False:
+        if downd and _forward_when_true(fn, downd[0]["d"], downd[0].get("n")) is False:
             R.ob(rule, "%s: downp is set for a negative divisor or the .neg flag" % name, True)
         else:
             R.finding(rule, fn, "direction", "downp must mean `backward`")
@@ -673,14 +706,25 @@ def _writes_any(branch):
     return False
 
 
+def _packed_var(fn):
+    """the local that receives hours, minutes and seconds packed into one number"""
+    for x in sorted(fn.walk(), key=lambda n: n.get("i", 0)):
+        if x.get("k") == "BinaryOperator" and x.get("op") == "=":
+            l = _u(x["c"][0])
+            if l is not None and l.get("k") == "DeclRefExpr" and {"hms.h", "hms.m", "hms.s"} <= {_field(y) for y in walk(x["c"][1]) if y.get("k") == "MemberExpr"}:
+                return l["d"]
+    raise AnalysisBroken("%s: packing of seconds since midnight not found" % fn.name)
+
+
 # ------------------------------------------------------------------ RF-reasm
 def check_reasm(P, R, tu):
     rule = "RF-reasm"
     fn = tu.func("tround_tdur_cocl")
     # pack: tunp = (h * A + m) * B + s
     pack = None
-    for x in fn.walk():
-        if x.get("k") == "BinaryOperator" and x.get("op") == "=" and _u(x["c"][0]).get("n") == "tunp":
+    tunp = _packed_var(fn)
+    for x in sorted(fn.walk(), key=lambda n: n.get("i", 0)):
+        if x.get("k") == "BinaryOperator" and x.get("op") == "=" and _u(x["c"][0]).get("d") == tunp:
             pack = _u(x["c"][1])
             break
     A = B = None
@@ -700,9 +744,9 @@ def check_reasm(P, R, tu):
     for x in sorted((y for y in fn.walk() if y.get("i", 0) > pack["i"]), key=lambda y: y["i"]):
         if x.get("k") == "BinaryOperator" and x.get("op") == "=" and _field(x["c"][0]) in ("hms.s", "hms.m", "hms.h"):
             r = _u(x["c"][1])
-            if r is not None and r.get("k") == "BinaryOperator" and r.get("op") == "%" and _u(r["c"][0]).get("n") == "tunp":
+            if r is not None and r.get("k") == "BinaryOperator" and r.get("op") == "%" and _u(r["c"][0]).get("d") == tunp:
                 seq.append((_field(x["c"][0]), "%", const_of(r["c"][1])))
-        if x.get("k") == "CompoundAssignOperator" and x.get("op") == "/=" and _u(x["c"][0]).get("n") == "tunp":
+        if x.get("k") == "CompoundAssignOperator" and x.get("op") == "/=" and _u(x["c"][0]).get("d") == tunp:
             seq.append(("tunp", "/", const_of(x["c"][1])))
     want = [("hms.s", "%", B), ("tunp", "/", B), ("hms.m", "%", A), ("tunp", "/", A), ("hms.h", "%", 24), ("tunp", "/", 24)]
     if seq == want and A * B * 24 == 86400:
@@ -711,9 +755,9 @@ def check_reasm(P, R, tu):
         R.finding(rule, fn, "split of seconds since midnight", "packed as (h * %s + m) * %s + s but split by %s" % (A, B, seq))
     # carry accumulates the whole days left
     carry = [x for x in fn.walk() if x.get("k") == "CompoundAssignOperator" and x.get("op") == "+=" and (_field(x["c"][0]) or "").endswith("carry")
-             and _u(x["c"][1]).get("n") == "tunp"]
+             and _u(x["c"][1]).get("d") == tunp]
     under = [x for x in fn.walk() if x.get("k") == "IfStmt" and _u(x["c"][0]) is not None and _u(x["c"][0]).get("k") == "BinaryOperator" and
-             _u(x["c"][0]).get("op") == "<" and _u(_u(x["c"][0])["c"][0]).get("n") == "tunp" and const_of(_u(x["c"][0])["c"][1]) == 0]
+             _u(x["c"][0]).get("op") == "<" and _u(_u(x["c"][0])["c"][0]).get("d") == tunp and const_of(_u(x["c"][0])["c"][1]) == 0]
     good_under = False
     for x in under:
         add = [y for y in walk(x["c"][1]) if y.get("k") == "CompoundAssignOperator" and y.get("op") == "+=" and const_of(y["c"][1]) == 86400]
@@ -730,10 +774,14 @@ def check_reasm(P, R, tu):
         raise AnalysisBroken("dround_ddur_cocl vanished")
     R.saw(fn)
     packm = None
-    for x in fn.walk():
-        if x.get("k") == "BinaryOperator" and x.get("op") == "=" and _u(x["c"][0]).get("n") == "ym":
+    for x in sorted(fn.walk(), key=lambda n: n.get("i", 0)):
+        if x.get("k") == "BinaryOperator" and x.get("op") == "=" and _u(x["c"][0]).get("k") == "DeclRefExpr" and \
+                any(y.get("k") == "BinaryOperator" and y.get("op") == "*" and _u(y["c"][0]).get("k") == "MemberExpr" for y in walk(x["c"][1])):
             packm = x
             break
+    if packm is None:
+        raise AnalysisBroken("%s: packing of months since year 0 not found" % rule)
+    ym = _u(packm["c"][0])["d"]
     lf = None
     if packm is not None:
         r = _u(packm["c"][1])
@@ -757,7 +805,7 @@ def check_reasm(P, R, tu):
     for x in fn.walk():
         if x.get("k") == "BinaryOperator" and x.get("op") == "=" and _field(x["c"][0]) in ("ymd.y", "ymd.m") and packm is not None and x["i"] > packm["i"]:
             r = _u(x["c"][1])
-            if r.get("k") == "BinaryOperator" and r.get("op") == "/" and _u(r["c"][0]).get("n") == "ym":
+            if r.get("k") == "BinaryOperator" and r.get("op") == "/" and _u(r["c"][0]).get("d") == ym:
                 un["y"] = ("/", const_of(r["c"][1]), 0)
             elif r.get("k") == "BinaryOperator" and r.get("op") == "+" and _u(r["c"][0]).get("k") == "BinaryOperator" and _u(r["c"][0]).get("op") == "%":
                 un["m"] = ("%", const_of(_u(r["c"][0])["c"][1]), const_of(r["c"][1]))
@@ -772,6 +820,7 @@ def check_reasm(P, R, tu):
     if not sw:
         raise AnalysisBroken("%s: unit switch of dround_ddur_cocl not found" % rule)
     factor, prod = {}, {}
+    sdur_ds = set()
     groups = switch_cases(sw[0])
     names = ("DT_DURYR", "DT_DURQU", "DT_DURMO")
     order = []
@@ -780,8 +829,9 @@ def check_reasm(P, R, tu):
         if any(l in names for l in labs):
             f = 1
             for s_ in g["stmts"]:
-                if s_.get("k") == "CompoundAssignOperator" and s_.get("op") == "*=" and _u(s_["c"][0]).get("n") == "sdur":
+                if s_.get("k") == "CompoundAssignOperator" and s_.get("op") == "*=" and _u(s_["c"][0]).get("k") == "DeclRefExpr":
                     f *= const_of(s_["c"][1])
+                    sdur_ds.add(_u(s_["c"][0])["d"])
             fall = not any(y.get("k") == "BreakStmt" for s_ in g["stmts"] for y in ([s_] if s_.get("k") == "BreakStmt" else []))
             order.append((labs, f, fall))
     mult = {}
@@ -793,20 +843,23 @@ def check_reasm(P, R, tu):
                 break
         for l in labs:
             mult[l] = p
+    sdur_d = sdur_ds.pop() if len(sdur_ds) == 1 else None
     if mult.get("DT_DURYR") == 12 and mult.get("DT_DURQU") == 3 and mult.get("DT_DURMO") == 1:
         R.ob(rule, "dround_ddur_cocl: a year is 12 months, a quarter 3", True)
     else:
         R.finding(rule, fn, "unit factors", "co-class rounding takes a year as %s and a quarter as %s months" % (mult.get("DT_DURYR"), mult.get("DT_DURQU")))
     # remainder pairing: of = ym % sdur; ym -= of; forward: ym += sdur
-    of = [x for x in fn.walk() if x.get("k") == "BinaryOperator" and x.get("op") == "=" and _u(x["c"][0]).get("n") == "of"]
+    of = [x for x in fn.walk() if x.get("k") == "BinaryOperator" and x.get("op") == "=" and _u(x["c"][0]).get("k") == "DeclRefExpr" and
+          _u(x["c"][1]) is not None and _u(x["c"][1]).get("k") == "BinaryOperator" and _u(x["c"][1]).get("op") == "%" and _u(_u(x["c"][1])["c"][0]).get("d") == ym]
     good = False
     if of:
         r = _u(of[0]["c"][1])
-        if r.get("k") == "BinaryOperator" and r.get("op") == "%" and _u(r["c"][0]).get("n") == "ym" and _u(r["c"][1]).get("n") == "sdur":
-            sub = [x for x in fn.walk() if x.get("k") == "CompoundAssignOperator" and x.get("op") == "-=" and _u(x["c"][0]).get("n") == "ym"
-                   and _u(x["c"][1]).get("n") == "of"]
-            add = [x for x in fn.walk() if x.get("k") == "CompoundAssignOperator" and x.get("op") == "+=" and _u(x["c"][0]).get("n") == "ym"
-                   and _u(x["c"][1]).get("n") == "sdur"]
+        ofd = _u(of[0]["c"][0])["d"]
+        if _u(r["c"][1]).get("d") == sdur_d and sdur_d is not None:
+            sub = [x for x in fn.walk() if x.get("k") == "CompoundAssignOperator" and x.get("op") == "-=" and _u(x["c"][0]).get("d") == ym
+                   and _u(x["c"][1]).get("d") == ofd]
+            add = [x for x in fn.walk() if x.get("k") == "CompoundAssignOperator" and x.get("op") == "+=" and _u(x["c"][0]).get("d") == ym
+                   and _u(x["c"][1]).get("d") == sdur_d]
             good = len(sub) == 1 and len(add) == 1 and sub[0]["i"] < add[0]["i"]
     if good:
         R.ob(rule, "dround_ddur_cocl: rounds down by the remainder, then up by the divisor when going forward", True)
@@ -821,15 +874,20 @@ def check_weekend(P, R, tu):
     en = {k: tu.enum_value(k) for k in ("DT_MONDAY", "DT_FRIDAY", "DT_SATURDAY", "DT_SUNDAY")}
     if None in en.values():
         raise AnalysisBroken("%s: weekday enumerators not found" % rule)
-    asg = [x for x in fn.walk() if x.get("k") == "BinaryOperator" and x.get("op") == "=" and _u(x["c"][0]).get("n") == "diff"]
+    # the amount added to the day count
+    added = [x for x in fn.walk() if x.get("k") == "CompoundAssignOperator" and x.get("op") == "+=" and (_field(x["c"][0]) or "").endswith("daisy")
+             and _u(x["c"][1]).get("k") == "DeclRefExpr"]
+    if len(added) != 1:
+        raise AnalysisBroken("%s: the move of the day count in dround_ddur_cocl was not found" % rule)
+    diffd = _u(added[0]["c"][1])["d"]
+    asg = [x for x in fn.walk() if x.get("k") == "BinaryOperator" and x.get("op") == "=" and _u(x["c"][0]).get("d") == diffd]
     forms = []
     for x in asg:
         lf = _lin2(fn, x["c"][1])
         forms.append((x, lf))
-    wd = [v for v in fn.walk() if v.get("k") == "Var" and v.get("n") == "wday"]
-    if len(forms) != 2 or not wd or any(lf is None for _, lf in forms):
+    w = _var_from_call(fn, "dt_get_wday")
+    if len(forms) != 2 or w is None or any(lf is None for _, lf in forms):
         raise AnalysisBroken("%s: weekend moves of dround_ddur_cocl not recognised (%s)" % (rule, [lf for _, lf in forms]))
-    w = wd[0]["d"]
     lands = sorted(lf.get(1, 0) for _, lf in forms if lf.get(w) == -1 and set(lf) <= {1, w})
     # value + diff: Friday going back, Monday of next week going forward
     if lands == sorted([en["DT_FRIDAY"], 7 + en["DT_MONDAY"]]):
@@ -899,8 +957,33 @@ def check_carry(P, R, tu):
         R.finding(rule, fn, "order", "the carry must be consumed after the time has been rounded and before the date is", test)
 
 
+def check_fresh(P, R, tu):
+    """RF-fresh: a period length (days of the month, business days of the month, weeks of the year) that a rounding clamps with was
+    looked up for the period the result is in: between the look-up and the use nothing the look-up read is written on any path"""
+    import fresh
+    rule = "RF-fresh"
+    n = 0
+    for name in ("dround_ddur", "dround_ddur_cocl", "dt_round"):
+        fn = tu.func(name)
+        if fn is None:
+            raise AnalysisBroken("%s vanished" % name)
+        found, uses = fresh.stale_lengths(fn)
+        n += uses
+        bad = {}
+        for d_, u_, w_, hit in found:
+            bad.setdefault((d_["i"], w_["i"]), (d_, u_, w_, hit))
+        for d_, u_, w_, hit in bad.values():
+            R.finding(rule, fn, "%s after `%s`" % (expr_text(_u(d_["c"][1])) if d_.get("k") == "BinaryOperator" else d_.get("n"), expr_text(w_)),
+                      "the length looked up at %s is used at %s after `%s` (%s) has changed `%s`, which the look-up read: on that path it is "
+                      "the length of a period the value is no longer in" % (fn.where(d_), fn.where(u_), expr_text(w_), fn.where(w_), hit), u_)
+        if not bad and uses:
+            R.ob(rule, "%s: %d uses of looked-up period lengths, none after a write to what the look-up read" % (name, uses), True)
+    R.floor(rule, "uses of looked-up period lengths in the rounding routines", n, 10)
+
+
 def check(P, R, tier):
     tu = P.tu(UNIT)
+    check_fresh(P, R, tu)
     per_fn = check_fourway(P, R, tu)
     check_same(P, R, per_fn)
     check_cocl(P, R, tu)
